@@ -1,23 +1,33 @@
 from common import COMMON_TB
 
 CONFIG = {
-    "lean_modules": ["SA.Props.C09"],
+    "lean_modules": ["SA.Props.C09", "SA.Props.C09Inst"],
     "level_text": "Theorems C09_request_roundtrip / C09_labels_ok / C09_too_long_reported proved in Lean for every request "
                   "type, every field value in range, every payload length, every tunnel domain of plain labels and every codec "
-                  "pair meeting C08's roundtrip + alphabet_safe (hypotheses): whenever the client's PrepareHostname accepts the "
+                  "pair meeting C08's roundtrip + alphabet_safe: whenever the client's PrepareHostname accepts the "
                   "request, the question has labels of 1..63 octets, a name of at most 251 octets, and the server decodes the "
-                  "identical request after DNS pack/unpack. C09_mtu_formula gives getUpstreamMtu as an exact rational floor; the "
-                  "Go float computation is compared with it exhaustively (domain length 0..260 x 8 codecs x multi-query flag) on "
-                  "every run. The model is tied to the Go code by running both on the same requests through the real "
+                  "identical request after DNS pack/unpack. The codec hypotheses are discharged (SA.Props.C09Inst): "
+                  "C09_request_roundtrip_b32/_b64/_b64u/_b85/_b91/_b128 and C09_labels_ok_inst instantiate the pair with "
+                  "property C08's codec models and C08's theorems, for every codec selectable upstream. "
+                  "C09_payload_within_mtu_fits: for each of these codecs, every domain, and every packet request whose payload "
+                  "has at most getUpstreamMtu bytes (exact-rational model, C09_mtu_formula), PrepareHostname accepts - proved "
+                  "from the tight encoded lengths (C08_length_exact_*/C08_length_tight_*), the number of dots Dotify inserts "
+                  "(induction) and linear arithmetic; C09_payload_within_mtu_roundtrip combines it with the round trip. "
+                  "The Go float computation of getUpstreamMtu is compared with the exact model exhaustively (domain length "
+                  "0..260 x 8 codecs x multi-query flag) on every run. The model - now running C08's codec models, not "
+                  "per-case look-up tables - is tied to the Go code by running both on the same requests through the real "
                   "serializer and the real miekg Pack/Unpack and comparing the unpacked question name, label statistics and the "
                   "decoded request.",
-    "level_note": "Partial: 'payloads up to the computed fragment size fit' is not a Lean theorem (it needs C08's length_bound "
-                  "per codec); it is checked on the implementation at mtu-3..mtu+12 for every codec x 6 (quick) / 11 (thorough) "
-                  "domain lengths and for every length 0..mtu in the thorough tier. miekg/dns packDomainName/UnpackDomainName "
-                  "are modelled, not verified. Codecs are parameters: Base32/64/64u/Raw computed locally, Base85/91/128 looked "
-                  "up from the op line (C08's subject). UseMultiQuery (never set by the client) is not modelled. Fragment size "
-                  "0xFFFFFFFF is the wire sentinel for 'absent' and excluded; upstream probe patterns containing '.' or '\\' "
-                  "(Base192's) are excluded (detecting that is the probe's purpose).",
+    "level_note": "miekg/dns packDomainName/UnpackDomainName are modelled, not verified (validated on every generated case). "
+                  "Library codecs (encoding/base32, base64, ascii85, mtraver/base91, luci base128 decode) are modelled at the "
+                  "level of their algorithm in C08 and tied by correspondence. Raw (not name-safe by design) and Base192 (open "
+                  "finding C08-F1: neither lossless nor name-safe) are outside the instance theorems. The size-budget theorem "
+                  "is about the exact-rational getUpstreamMtu; float = exact is an exhaustive per-run comparison, not a proof. "
+                  "The budget is tight (Base91, 132-character domain: 251 of 251 characters under the proved bounds) and does "
+                  "not follow from C08's worded bound ratio*n + 8 (C09_c08_slack_insufficient). UseMultiQuery (never set by "
+                  "the client) is not modelled. Fragment size 0xFFFFFFFF is the wire sentinel for 'absent' and excluded; "
+                  "upstream probe patterns containing '.' or '\\' (Base192's) are excluded (detecting that is the probe's "
+                  "purpose).",
     "technique": "Lean 4 proof (induction over names/labels, round-trip lemmas) + model/code differential correspondence",
     "components": [{"name": "dnsreq", "timeout": {"quick": 300, "thorough": 1200}}],
     "rule": "dnsreq: (1) getUpstreamMtu exhaustively for domain length 0..260 x 8 registry codecs x multi flag; (2) packet "
@@ -31,8 +41,8 @@ CONFIG = {
     "trusted_base": COMMON_TB + ["models SA.Model.DnsWire / DnsReq hand-written; tied by per-op comparison of the unpacked "
                                  "question name (hex), longest label, wire octets and every decoded field",
                                  "miekg/dns v1.1.34 name packing modelled (packName/unpackName), validated per generated case",
-                                 "codec hypotheses roundtrip/alphabet_safe are C08's theorems (to be connected by the coordinator)"],
-    "assumptions": ["the codec pair satisfies C08's roundtrip (on byte strings) and alphabet_safe ('.' and '\\' never emitted, bytes only)",
+                                 "codec instances = C08's models SA.Model.Codec (hand-written; tied by C08's own correspondence and, through this component, on every request)"],
+    "assumptions": ["upstream codec is one of Base32/64/64u/85/91/128 (the general theorems take any codec pair with C08's roundtrip and alphabet_safe as hypotheses)",
                     "tunnel domain = dot-separated labels of 1..63 characters that miekg prints unescaped",
                     "single-question mode (UseMultiQuery is never set by the client)"],
 }
